@@ -411,6 +411,12 @@ func randomAnimInput(rng *rand.Rand, prop string, big bool) animEncInput {
 		cur = editPicture(rng, cur, alphaMode)
 		cur = editPicture(rng, cur, alphaMode)
 	}
+	drift := prop == "C18" && rng.Intn(5) == 0 // a history of small colour drifts under unchanged graded alpha
+	if drift {
+		for tries := 0; tries < 4; tries++ { // make sure there are translucent pixels to drift
+			cur = editPicture(rng, cur, 2)
+		}
+	}
 	undersized := rng.Intn(8) == 0 // a history in which most frames are smaller than the canvas, each with its own extent
 	var before *image.NRGBA        // the picture before the last edit: "something appears, then disappears again"
 	for i := 0; i < n; i++ {
@@ -420,6 +426,26 @@ func randomAnimInput(rng *rand.Rand, prop string, big bool) animEncInput {
 				if rng.Intn(2) == 0 { // ... while something small changes elsewhere
 					cur = cloneNRGBAImage(cur)
 					cur.SetNRGBA(rng.Intn(cw), rng.Intn(ch), color.NRGBA{uint8(rng.Intn(256)), uint8(rng.Intn(256)), 7, 255})
+				}
+			} else if drift {
+				// the colour under every translucent pixel moves by a few units, its alpha stays; one pixel changes for
+				// good (so that there is a changed rectangle around them)
+				before = cur
+				cur = cloneNRGBAImage(cur)
+				for k := 0; k+3 < len(cur.Pix); k += 4 {
+					if a := cur.Pix[k+3]; a > 0 && a < 255 && rng.Intn(2) == 0 {
+						c := k + rng.Intn(3)
+						d := 1 + rng.Intn(4)
+						if cur.Pix[c] > 128 {
+							cur.Pix[c] -= uint8(d)
+						} else {
+							cur.Pix[c] += uint8(d)
+						}
+					}
+				}
+				cur.SetNRGBA(rng.Intn(cw), rng.Intn(ch), color.NRGBA{uint8(rng.Intn(256)), uint8(rng.Intn(256)), 9, 255})
+				if cw > 2 {
+					cur.SetNRGBA(cw-1-rng.Intn(2), ch-1, color.NRGBA{uint8(rng.Intn(256)), 7, uint8(rng.Intn(256)), 255})
 				}
 			} else {
 				before = cur
